@@ -29,8 +29,12 @@ Definition check_dens (c : list Q * Q * nat * Q) : bool :=
 """
 
 
+TRANSLATORS = [('py_threshold_facts', 'ThresholdK')]
+
+
 def theorems(ctx):
     ctx.modelled += MODELLED
+    ctx.generate(TRANSLATORS)
     ctx.theorems()
     if ctx.tier == "thorough":
         ctx.coqchk()
